@@ -207,6 +207,25 @@ def snapshot(d):
     return nodes, edges, cmap
 
 
+def observe_queries(d):
+    """what the pure queries answer (a cache written by one of them and corrupted by another shows up here)"""
+    def norm(x):
+        if isinstance(x, dict):
+            return sorted((norm(k), norm(v)) for k, v in x.items())
+        if isinstance(x, (set, frozenset, list, tuple)):
+            return sorted((norm(e) for e in x), key=repr)
+        if isinstance(x, type):
+            return x.__name__
+        return x
+    out = {"parent_map": norm(d.parent_map)}
+    for w in d.wrapped_classes:
+        out[("ancestors", w.index)] = norm(d.all_ancestors(w.index))
+        out[("out", w.index)] = sorted(id(e) for e in d.get_out_edges(w))
+    out["keys"] = norm(d.get_assoc_keys_by_source(False))
+    out["keys+names"] = norm(d.get_assoc_keys_by_source(True))
+    return out
+
+
 def observed_edges(d):
     g = d._dependency_graph
     inh, assoc = [], []
@@ -266,13 +285,15 @@ def check_model(model, order_name, names_in_order, classes, sample):
         if len(x) > 2 and not (x[4] and x[5]):
             rep.fail("association-edges::endpoints", f"association {x[:3]}: source/target objects are not the edge's end nodes", inp)
         if len(x) > 2:
-            # role takers: a Role[T] class with its single undefaulted one-to-one field of type T
+            # role takers: in a Role[T] class (or a subclass of one) every undefaulted, mandatory one-to-one field of type T
             c, fname, tgt, kind = x[0], x[1], x[2], x[3]
-            is_role_field = by[c]["role_of"] is not None and fname == "taker"
-            if is_role_field and kind != "HasRoleTaker":
-                rep.fail("association-edges::role-taker", f"{c}.{fname} is the role taker of Role[{tgt}] but the edge is a {kind}", inp)
-            if by[c]["role_of"] is None and not any(by[b]["role_of"] for b in ancestors(by, c)) and kind != "Association":
-                rep.fail("association-edges::role-taker", f"{c}.{fname}: class is no Role but the edge is a {kind}", inp)
+            roles = {by[k]["role_of"] for k in [c] + ancestors(by, c) if by[k]["role_of"] is not None}
+            if len(roles) <= 1:
+                fdef = {f: (t, dflt) for f, t, dflt in all_fields(model, c)}[fname]
+                want = "HasRoleTaker" if (roles and fdef[0] == ("c", next(iter(roles))) and fdef[1] is None) else "Association"
+                if kind != want:
+                    rep.fail("association-edges::role-taker", f"{c}.{fname} -> {tgt}: the edge is a {kind}, expected {want} "
+                             f"(Role parameter {sorted(roles)}, annotation {ann_src(fdef[0])}, default {fdef[1]})", inp)
     # ---- classification
     for w in d.wrapped_classes:
         c = w.clazz.__name__
@@ -294,6 +315,7 @@ def check_model(model, order_name, names_in_order, classes, sample):
     # ---- frame: read-only operations
     before = snapshot(d)
     before_edges = observed_edges(d)
+    st0, before_q = guarded(lambda: observe_queries(d))
     some = d.wrapped_classes[0] if d.wrapped_classes else None
     ops = [("associations", lambda: d.associations), ("inheritance_relations", lambda: d.inheritance_relations),
            ("parent_map", lambda: d.parent_map), ("get_assoc_keys_by_source", lambda: d.get_assoc_keys_by_source(True)),
@@ -324,6 +346,12 @@ def check_model(model, order_name, names_in_order, classes, sample):
             rep.fail("frame::" + name.split("(")[0], f"{name} changed the diagram it was called on: "
                      f"{len(before[1])} edges before, {len(after[1])} after", inp)
             before, before_edges = after, observed_edges(d)
+        st1, after_q = guarded(lambda: observe_queries(d))
+        if st0 == "ok" and st1 == "ok" and after_q != before_q:
+            diff = [k for k in before_q if before_q[k] != after_q.get(k)]
+            rep.fail("frame::answers-change::" + name.split("(")[0], f"after {name} the diagram answers {diff[:3]} differently: "
+                     f"{[(before_q[k], after_q.get(k)) for k in diff[:1]]}", inp)
+            before_q = after_q
         rep.case(("op", name), sample=None)
     # The CONTENT of the derived view is not part of C17 (only that the source diagram stays intact); with parallel edges
     # between two classes the derived view is in fact unreliable (edge_list()/get_edge_data(u, v) see one of them) - noted in
